@@ -325,6 +325,29 @@ def run(ck):
         for f in forms:
             if f.split()[0] in ("bit", "res", "set", "rst", "im", "swap", "sll"):
                 cases.append((arch, (" " + f + "\n").encode("utf8"), "fragment:isa-selectors"))
+    # every accepted form once more with its operand only known at link time, as the last thing that places bytes (a link
+    # that reaches past its operand then reaches past the image); for the 6502 also every mnemonic with every operand shape
+    for arch in asmk.ARCHES:
+        late = []
+        for f, _ in asmk.census(arch):
+            m = asmk.NUMRE.search(f)
+            if m and f.split()[0] not in ("bit", "res", "set", "rst", "im"):
+                late.append(" %s\n@defn lt1, %s" % (f[:m.start()] + "lt1" + f[m.end():], m.group(0)))
+        if arch == "6502":
+            mns = sorted({f.split()[0] for f, _ in asmk.census(arch)})
+            for mn in mns:
+                for shape in ("lt1", "lt1, x", "lt1, y", "(lt1), y", "(lt1, x)", "(lt1)", "#lt1"):
+                    for v in ("$10", "$1234"):
+                        late.append(" %s %s\n@defn lt1, %s" % (mn, shape, v))
+        for t in late:
+            cases.append((arch, (t + "\n").encode("utf8"), "fragment:isa-late"))
+    # constants that are used before they are defined and whose expressions hold every kind of node (evaluated by the
+    # linker's reference pass, by the link records and by the exporters)
+    for body in ("@sizeof Sq.f1", "@sizeof Sq.f1 + 1", "kq0 + @sizeof Sq.f1", "< @sizeof Sq.f1", "1 ? @sizeof Sq.f1 : 2", "@sizeof Sq.nosuch", "@sizeof kq0",
+                 "kq0 / 0", "kq0 % ( kq0 - kq0 )", "- kq0", "~ kq0 << 31", "kq9", "kq1"):
+        for use in ("@db kq1", "@dw kq1", "@ds 2, kq1", "@assert kq1", " ld a, kq1", "@defl kq2, kq1 + 1\n@db kq2"):
+            t = "%s\n@struct Sq\n f1 3\n@endstruct\n@defn kq0, 4\n@defl kq1, %s\n" % (use, body)
+            cases.append((rng.choice(["z80", "sm83"]) if use.startswith(" ld") else rng.choice(asmk.ARCHES), t.encode("utf8"), "fragment:late-constant"))
     skipped = 0
     kept = []
     for arch, data, tag in cases:
